@@ -658,7 +658,8 @@ def colliding_unit(rng, pkg, name, path_dir="", same_name=True, annotate=None):
     Returns None when no filler count hits the coincidence (then the caller generates an ordinary unit)."""
     import random as _r
     def build(k, ind_mods, extra=0):
-        fill = [Method("fill%d" % i, None, [], [ExprS(Call(Name("svc"), "run", []))] if i % 2 else [], ["public"]) for i in range(k)]
+        fill = [Field(T("int"), ["pad%d" % i], ["private"]) if i % 3 == 2 else
+                Method("fill%d" % i, None, [], [ExprS(Call(Name("svc"), "run", []))] if i % 3 == 1 else [], ["public"]) for i in range(k)]
         ann = [annotate] if annotate else []
         if same_name:
             m1 = Method("add", T("int"), [(T("int"), "a")], [ExprS(Call(Name("svc"), "run", []))] * extra + [Return(Lit("1"))], ann + ind_mods)
